@@ -74,6 +74,7 @@ func NewShared(prog *ssa.Program) *Shared {
 	registerJSONBox(sh.intr)
 	registerProtoBox(sh.intr)
 	registerSort(sh.intr)
+	registerGzipBox(sh.intr)
 	if p := prog.ImportedPackage("errors"); p != nil {
 		sh.errorsNew = p.Func("New")
 	}
